@@ -202,18 +202,27 @@ PROPS["C13"] = {
 
 PROPS["C15"] = {
     "title": "values print as GraphQL literals (printer kernels)",
-    "files": ["value/src/lib.rs"],
-    "funcs": ["impl Display for ConstValue", "write_quoted", "write_list (value/src/lib.rs), executed through the real core::fmt machinery into a fixed sink"],
+    "files": ["value/src/lib.rs", "value/src/value_serde.rs"],
+    "funcs": ["impl Display for ConstValue", "write_quoted", "write_list (value/src/lib.rs), executed through the real core::fmt machinery into a fixed sink",
+              "ConstValue::into_json / from_json (value/src/lib.rs) = impl Serialize / Deserialize for ConstValue (value/src/value_serde.rs) driven by serde_json's real value (de)serializer"],
     "claim": "for EVERY Unicode scalar value c of a class, printing ConstValue::String(c) yields a quoted text whose content is valid GraphQL "
              "string content denoting exactly c (reference decoder in the harness: escapes, \\uXXXX with hex digits, raw UTF-8); null, "
-             "booleans and one-digit integers print as their tokens",
+             "booleans and one-digit integers print as their tokens; JSON clause for the scalar kinds: into_json maps null, both booleans, EVERY i64, "
+             "EVERY u64, EVERY finite f64, every one-byte ASCII string to the JSON value of the same kind and content and from_json maps it "
+             "back to the same value (numbers compared through serde_json::Number's exact accessors, floats bit-exactly); an enum value "
+             "(one-letter name) becomes the JSON string of its name",
     "not_covered": "re-parsing through the real parser (pest), strings of more than one character, lists/objects (a 2-item list does not "
-                   "finish in 10 min), floats and multi-digit integers (std's formatting loops), conversion to JSON and back",
+                   "finish in 10 min; JSON arrays/objects likewise: IndexMap), floats and multi-digit integers in the printer (std's formatting "
+                   "loops), Binary, the non-const Value's Variable case, the raw_value feature",
     "assumptions": [],
     "harnesses": [
         H("c15::c15_quote_c0", crate="hv", unwind=6, cls="L", mem_gb=4, timeout_s=600, bounds="every C0 control character U+0000..U+001F"),
         H("c15::c15_quote_ascii", crate="hv", unwind=6, cls="L", mem_gb=4, timeout_s=600, bounds="every ASCII character U+0020..U+007F"),
         H("c15::c15_print_scalars", crate="hv", unwind=6, cls="L", mem_gb=4, timeout_s=600, bounds="null, both booleans, integers -9..=9"),
+        H("c15::c15_json_bool_null", crate="hv", unwind=4, stubs=[FMT], bounds="Null, both booleans: into_json and from_json"),
+        H("c15::c15_json_numbers", crate="hv", unwind=4, stubs=[FMT], bounds="every i64, every u64, every finite f64: into_json and from_json",
+          assumes=["f64 finite (serde_json::Number cannot hold non-finite floats)"]),
+        H("c15::c15_json_string_enum", crate="hv", unwind=4, stubs=[FMT], bounds="every 1-byte ASCII string (both directions); every one-letter enum name -> JSON string"),
         H("c15::c15_quote_latin", crate="hv", unwind=6, cls="L", mem_gb=22, timeout_s=1800, tiers=("thorough",), bounds="every 2-byte scalar value U+0080..U+07FF"),
         H("c15::c15_quote_bmp", crate="hv", unwind=6, cls="L", mem_gb=24, timeout_s=2400, tiers=("thorough",), bounds="every 3-byte scalar value U+0800..U+FFFF"),
         H("c15::c15_quote_astral", crate="hv", unwind=6, cls="L", mem_gb=24, timeout_s=2400, tiers=("thorough",), bounds="every 4-byte scalar value"),
@@ -226,11 +235,11 @@ PROPS["C32"] = {
     "funcs": ["connection::query_with::<u8, ...> (src/types/connection/mod.rs)", "<T as CursorType>::{encode_cursor, decode_cursor} for u8, i8, u16, i16, bool, char"],
     "claim": "for every first/last in Option<i32> and every ASCII cursor string of 0..3 bytes (or none) as after or before, query_with "
              "invokes the page-fetching closure iff first >= 0, last >= 0 and the cursor decodes (reference u8 parser in the harness), "
-             "passes it exactly the decoded values, and otherwise returns an error without invoking it; decode(encode(v)) == v for every "
+             "passes it exactly the decoded values (with both cursors present, 1 byte each: each in its own position), and otherwise returns an error without invoking it; decode(encode(v)) == v for every "
              "u8, i8, u16, i16, bool and ASCII char (thorough: every u32)",
     "not_covered": "i32 and wider integers (i32 does not finish in 25 min) and floats (Grisu), String/ID cursors (identity), "
                    "OpaqueCursor (base64 + serde_json), page info's start/end cursors (async resolver over a Context), both cursors "
-                   "present at once",
+                   "present with more than one byte each",
     "assumptions": ["the closure's future is immediately ready (polled once with a no-op waker)"],
     "harnesses": [
         H("c32::c32_gate0", crate="hm", unwind=5, stubs=[FMT], bounds="first,last: any Option<i32>; after: none or \"\""),
@@ -238,6 +247,7 @@ PROPS["C32"] = {
         H("c32::c32_gate2", crate="hm", unwind=5, stubs=[FMT], bounds="first,last: any Option<i32>; after: none or any 2-byte ASCII string"),
         H("c32::c32_gate3", crate="hm", unwind=6, stubs=[FMT], bounds="first,last: any Option<i32>; after: none or any 3-byte ASCII string"),
         H("c32::c32_gate2_before", crate="hm", unwind=5, stubs=[FMT], bounds="first,last: any Option<i32>; before: none or any 2-byte ASCII string"),
+        H("c32::c32_gate_both", crate="hm", unwind=5, stubs=[FMT], bounds="first,last: any Option<i32>; after AND before: each none or any 1-byte ASCII string (each decoded value must arrive in its own position)"),
         H("c32::c32_rt_u8", crate="hm", unwind=6, bounds="every u8"),
         H("c32::c32_rt_i8", crate="hm", unwind=6, bounds="every i8"),
         H("c32::c32_rt_u16", crate="hm", unwind=8, bounds="every u16"),
@@ -305,13 +315,15 @@ PROPS["C16"] = {
 PROPS["C12"] = {
     "title": "no client input can crash the server (panic-freedom of input kernels)",
     "files": ["src/types/upload.rs", "parser/src/parse/utils.rs"],
-    "funcs": ["<Upload as InputType>::parse (src/types/upload.rs)", "parse::utils::string_value (parser) - via the C13 harnesses"],
+    "funcs": ["<Upload as InputType>::parse (src/types/upload.rs)", "Upload::value (src/types/upload.rs) over a hand-built Context (verif-hooks constructors, empty registry)",
+              "parse::utils::string_value (parser) - via the C13 harnesses"],
     "claim": "Upload::parse on the internal marker '#__graphql_file__:' followed by ANY ASCII suffix of 0..3 bytes never panics, accepts "
              "exactly the suffixes that denote an index and yields that index; every other value kind is rejected without panicking; "
+             "Upload::value, for EVERY usize index (forged markers reach it with any index), returns an error and does not panic when the request carries no file; "
              "string_value never panics on grammar-valid string content of <= 3 ASCII bytes (Kani checks every panic, overflow, "
              "out-of-bounds access and unwrap on these paths)",
     "not_covered": "stack exhaustion in the pest parser and the AST builders, JSON / multipart / WebSocket decoding, HTTP query strings, "
-                   "Upload::value's index into the request's uploads (needs a Context; fixed by reading, see known_findings.txt), "
+                   "Upload::value with files present (UploadValue::try_clone over Bytes / a temp file), "
                    "request extensions - all inside dependencies or the executor, which cannot be encoded",
     "assumptions": [],
     "harnesses": [
@@ -320,6 +332,7 @@ PROPS["C12"] = {
         H("c12::c12_upload_marker2", crate="hm", unwind=20, stubs=[FMT, SLICE], bounds="marker + every 2-byte ASCII suffix", timeout_s=600),
         H("c12::c12_upload_marker3", crate="hm", unwind=20, stubs=[FMT, SLICE], bounds="marker + every 3-byte ASCII suffix", timeout_s=900, tiers=("thorough",)),
         H("c12::c12_upload_other", crate="hm", unwind=20, stubs=[FMT, SLICE], bounds="absent, Null, Boolean(any), String(\"\"), String(1 ASCII byte), List([])"),
+        H("c12::c12_upload_value_no_files", crate="hm", unwind=3, stubs=[FMT, RS], bounds="every usize index; request without files (Context built from an empty registry, a mutation operation with one field)"),
         H("c13::c13_string_ascii1", crate="hp", unwind=3, bounds="every grammar-valid ASCII string content of 1 byte"),
         H("c13::c13_string_ascii2", crate="hp", unwind=4, cls="L", mem_gb=6, timeout_s=600, bounds="every grammar-valid ASCII string content of 2 bytes"),
         H("c13::c13_string_ascii3", crate="hp", unwind=5, cls="L", mem_gb=12, timeout_s=900, tiers=("thorough",), bounds="every grammar-valid ASCII string content of 3 bytes"),
@@ -360,16 +373,29 @@ PROPS["C21"] = {
 }
 
 _c06n = ["opt_absent", "opt_null", "opt_number", "opt_wrong_kind", "mu_absent", "mu_null", "mu_number", "vec_single", "vec_list0",
-         "vec_absent", "vec_null", "vecopt_absent", "vecopt_null", "optvec_absent", "optvec_null", "optvec_single"]
+         "vec_absent", "vec_null", "vecopt_absent", "vecopt_null", "optvec_absent", "optvec_null", "optvec_single",
+         "vec_wrong_kind", "deque_absent_null", "dequeopt_absent_null", "deque_single", "deque_list0", "deque_wrong_kind",
+         "llist_absent_null", "llistopt_absent_null", "llist_single", "llist_list0", "llist_wrong_kind",
+         "bset_absent_null", "bsetopt_absent_null", "bset_single", "bset_list0", "bset_wrong_kind",
+         "hset_absent_null", "hsetopt_absent_null",
+         "boxslice_absent_null", "boxsliceopt_absent_null", "boxslice_single", "boxslice_list0",
+         "arcslice_absent_null", "arcsliceopt_absent_null", "arcslice_single"]
 PROPS["C06"] = {
     "title": "resolvers receive exactly the spec-coerced argument values (coercion kernels)",
-    "files": ["src/types/external/optional.rs", "src/types/external/list/vec.rs", "src/types/maybe_undefined.rs", "src/types/external/integers.rs", "src/context.rs"],
+    "files": ["src/types/external/optional.rs", "src/types/external/list/vec.rs", "src/types/external/list/vec_deque.rs",
+              "src/types/external/list/linked_list.rs", "src/types/external/list/btree_set.rs", "src/types/external/list/hash_set.rs", "src/types/external/list/slice.rs",
+              "src/types/maybe_undefined.rs", "src/types/external/integers.rs", "src/context.rs"],
     "funcs": ["<Option<i32> as InputType>::parse", "<MaybeUndefined<i32> as InputType>::parse", "<Vec<i32> as InputType>::parse",
-              "<Vec<Option<i32>> as InputType>::parse", "<Option<Vec<i32>> as InputType>::parse"],
+              "<Vec<Option<i32>> as InputType>::parse", "<Option<Vec<i32>> as InputType>::parse",
+              "<VecDeque<i32> | LinkedList<i32> | BTreeSet<i32> as InputType>::parse (absent, null, single value, [], wrong kind)",
+              "<VecDeque<Option<i32>> | LinkedList<Option<i32>> | BTreeSet<Option<i32>> | HashSet<i32> | HashSet<Option<i32>> as InputType>::parse (absent, null)",
+              "<Box<[i32]> | Arc<[i32]> | Box<[Option<i32>]> | Arc<[Option<i32>]> as InputType>::parse (absent, null; single value, [] for the non-optional item type)"],
     "claim": "for each wrapper type over Int and each enumerated input shape (absent, null, Number(n) for EVERY i64 n, Boolean, String, []) InputType::parse returns exactly what the spec's input coercion gives: absent vs null distinguished only by "
              "MaybeUndefined; a single value becomes a one-element list; a wrong kind is an error; an "
-             "out-of-range n is an error; null for a non-null list is an error",
-    "not_covered": "the argument/variable plumbing in ContextBase::param_value (variable defaults, argument defaults): the harnesses exist "
+             "out-of-range n is an error; null for a non-null list is an error; the same rules for the other list containers that have their own "
+             "parse (VecDeque, LinkedList, BTreeSet: absent, null, single value for every i64, [], Boolean; HashSet: absent and null; Box<[T]> and Arc<[T]>: absent, null, single value, [] - "
+             "the null rule for Box/Arc<[Option<Int>]> was violated on the pinned tree and is fixed, see known_findings.txt)",
+    "not_covered": "HashSet with items (hash-map insertion does not finish), fixed-size arrays; the argument/variable plumbing in ContextBase::param_value (variable defaults, argument defaults): the harnesses exist "
                    "(harness/hm/src/c06p.rs, over a hand-built Context) and replay natively, but do not finish under Kani in 25 min - they are "
                    "NOT registered; derive-generated InputObject / OneofObject parsing, dynamic-schema value accessors, 'the resolver is not "
                    "invoked on error'; non-empty list literals ([n], [n, null]: the harnesses c06_vec_list1, c06_vec_list_null_item, c06_vecopt_list2 "
